@@ -37,7 +37,9 @@ def run(tier, replay=None):
             chk.violation("spec-AsmRelax-termination", "TLC: the relaxation model does not terminate / ends wrong:\n" + r2.out[-2500:])
         exe = vlib.build_cxx("asm_case_san", ["asm_case.cpp"], flags=SAN, compiler="clang++")
         rng = vlib.rng(10)
-        _, asmprogs = fuzzlib.unusual(d, 3 if tier == "quick" else 4)
+        sizes = (1000, 150000) if tier == "quick" else (1000, 20000, 150000, 1000000)
+        comp, asmprogs = fuzzlib.unusual(d, 3 if tier == "quick" else 4, scale_sizes=sizes)
+        scale = fuzzlib.scale_cases(comp['ascale'])
         cases = [{'id': 'unusual%d' % k, 'src': "\n".join(p) + ("\n" if k % 2 else ""), 'fam': 'unusual'} for k, p in enumerate(asmprogs)]
         seeds = [open(s, encoding='latin-1').read() for s in corpus.repo_sources_asm() if not s.endswith('xhexb.S')]
         seeds += [c['src'] for c in asmlib.random_cases(rng, 60)]
@@ -49,6 +51,7 @@ def run(tier, replay=None):
             cases.append({'id': 'bytes%d' % k, 'src': fuzzlib.random_bytes(rng, 2048, alpha), 'fam': 'bytes'})
         for c in asmlib.coupled_cases(True):
             cases.append({'id': c['id'], 'src': c['src'], 'fam': 'coupled'})
+        cases += [c for c in scale if c['id'].endswith(':1000')]
         cases.append({'id': 'empty', 'src': "", 'fam': 'edge'})
         cases.append({'id': 'comment-only', 'src': "# nothing\n", 'fam': 'edge'})
         cases.append({'id': 'labels-only', 'src': "a\nb\nc\n", 'fam': 'edge'})
@@ -81,10 +84,10 @@ def run(tier, replay=None):
             chk.violation("memcheck:" + fuzzlib.stable(head), "hexasm on input %s: valgrind memcheck reports %s" % (c['id'], head), {"input.S": c['src'].encode('latin-1', 'replace')})
         # the EXECUTABLE (its main() has exception handlers of its own) on a sample
         usamp = [c for c in cases if c['fam'] == 'unusual']
-        esub = usamp[:: max(1, len(usamp) // (250 if tier == "quick" else 5000))] + [c for c in cases if c['fam'] in ('edge', 'deep')]
+        esub = usamp[:: max(1, len(usamp) // (250 if tier == "quick" else 5000))] + [c for c in cases if c['fam'] in ('edge', 'deep')] + scale
         for c, what in fuzzlib.exe_sample(os.path.join(corpus.tools(), "hexasm"), esub, d, ".S", "c10"):
             chk.violation("exe:" + what.split(',')[0], "hexasm executable on input %s: %s" % (c['id'], what), {"input.S": c['src'].encode('latin-1', 'replace')})
-        chk.set("executable_runs", len(esub))
+        chk.set("executable_runs", len(esub)); chk.set("scale_inputs", len(scale)); chk.set("scale_sizes", list(sizes))
         # the lexer against spec/Lex.tla: every string up to length 4 over a small alphabet, tokenised by TLC and by the tool
         import lexcheck
         nlex, lexbad = lexcheck.run(d, exe, exe, only="asm")
